@@ -768,6 +768,7 @@ def run(tier):
         ck.violation('model-witness', 'SrcFacts.be_log_to_write_reinit_per_sink = false: a sink without override behind a sink with override pattern is handed the override line (theorem C12d_hoisted_refuted); broken: ' + '; '.join(broken)[:300],
                      case=with_hoist(D.corpus_cases(orc, 1)[0], 1), expected='the plain sink is handed the line of the logger\'s pattern',
                      observed='model variant hoist=1: the plain sink is handed the override line')
+    share_cases = formatter_sharing_phase(ck)      # several loggers: each line carries its own logger's pattern options
     if broken and not ck.violations:
         ck.violation('no-failing-input-found', '; '.join(broken))
     # what the code does on the inputs the property excludes (documented, not judged)
